@@ -14,9 +14,12 @@ import (
 	"context"
 	"errors"
 	"fmt"
+	"github.com/criyle/go-sandbox/pkg/forkexec"
 	"os"
 	"runtime"
+	"strings"
 	"sync"
+	"syscall"
 	"testing"
 	"time"
 
@@ -31,7 +34,7 @@ import (
 )
 
 type c17ICase struct {
-	Scenario string // pending-call | failed-start-then-build
+	Scenario string // pending-call | failed-start-then-build | emfile-start | thread-with-history
 	Pending  string // open ping symlink delete reset
 	Other    string // ptrace unshare container build
 	DelayMs  int    // how long the queued call has been waiting when U starts
@@ -254,6 +257,136 @@ func c17Independence(c c17ICase, rec *vh.Recorder) error {
 		if got != want {
 			return vh.Violf("C17:environment-killed-by-unrelated-run", "an environment built by a goroutine that had a failed ptrace launch (%s) before and has ended since: Execve returns %q, want %q; %s", b.runErr, got, want, desc)
 		}
+	case "emfile-start":
+		// a launch fails because the process has no descriptor left for the launcher's internal socket pair; once
+		// descriptors are available again every other launch in the process must work as when nothing had failed
+		var old syscall.Rlimit
+		if err := syscall.Getrlimit(syscall.RLIMIT_NOFILE, &old); err != nil {
+			return vh.Infraf("getrlimit: %v", err)
+		}
+		dn := devNullFile()
+		efd, err := probeExecFd()
+		if err != nil {
+			return err
+		}
+		var ps probe.Script
+		ps.Add("exit:0")
+		fr := &forkexec.Runner{Args: ps.Argv(newTag(), 3), Env: []string{"A=1"}, ExecFile: efd, Files: []uintptr{dn.Fd(), dn.Fd(), dn.Fd()}}
+		if c.Fail == "syncfunc-error" {
+			fr.SyncFunc = func(int) error { return nil }
+		}
+		low := old
+		low.Cur = 0
+		if err := syscall.Setrlimit(syscall.RLIMIT_NOFILE, &low); err != nil {
+			return vh.Infraf("setrlimit: %v", err)
+		}
+		pid, serr := fr.Start()
+		syscall.Setrlimit(syscall.RLIMIT_NOFILE, &old)
+		if serr == nil {
+			var ws syscall.WaitStatus
+			syscall.Kill(pid, syscall.SIGKILL)
+			syscall.Wait4(pid, &ws, 0, nil)
+			return vh.Infraf("a launch with RLIMIT_NOFILE 0 succeeded")
+		}
+		results := make([]string, 4)
+		var wg sync.WaitGroup
+		for k := range results {
+			wg.Add(1)
+			go func(k int) {
+				defer wg.Done()
+				results[k], _ = c17Unrelated([]string{"ptrace", "unshare", "build", "unshare"}[k], c.Code+k, nil)
+			}(k)
+		}
+		wg.Wait()
+		for k, r := range results {
+			if w := fmt.Sprintf("%v exit %d ", runner.StatusNonzeroExitStatus, c.Code+k); r != w {
+				key := "C17:differs-from-alone"
+				if strings.HasPrefix(r, "hung") {
+					key = "C17:blocked-by-another-sandbox"
+				}
+				return vh.Violf(key, "after a launch that failed for lack of descriptors (%v), launch %d of 4 concurrent ones returned %q, want %q; %s", serr, k, r, w, desc)
+			}
+		}
+	case "thread-with-history":
+		// one OS thread: first it forks something long-lived for another sandbox (a container init, or a namespace-runner
+		// child), then a ptrace run happens on the same thread; each must behave as alone
+		type out struct {
+			res, other string
+			err        error
+		}
+		ch := make(chan out, 1)
+		go func() {
+			runtime.LockOSThread()
+			defer runtime.UnlockOSThread()
+			var o out
+			var env container.Environment
+			var root string
+			otherDone := make(chan string, 1)
+			switch c.Other {
+			case "build", "container":
+				env, root, o.err = buildContainer(nil)
+				if o.err != nil {
+					ch <- o
+					return
+				}
+			default:
+				// a namespace run that is still going while the ptrace run starts and ends
+				go func() {
+					var s probe.Script
+					s.Add("sleep:800")
+					s.Add("exit:33")
+					tr, err := runUnshare(sandboxOpts{Script: &s, Timeout: 20 * time.Second})
+					switch {
+					case err != nil:
+						otherDone <- "infra " + err.Error()
+					case tr.Hung:
+						otherDone <- "hung"
+					default:
+						otherDone <- fmt.Sprintf("%v exit %d %s", tr.Result.Status, tr.Result.ExitStatus, tr.Result.Error)
+					}
+				}()
+				time.Sleep(100 * time.Millisecond)
+			}
+			o.res, o.err = c17Unrelated("ptrace", c.Code, nil)
+			if env != nil {
+				if e := env.Ping(); e != nil {
+					o.other = "ping: " + e.Error()
+				} else if r, _ := c17Unrelated("container", 34, env); r != fmt.Sprintf("%v exit %d ", runner.StatusNonzeroExitStatus, 34) {
+					o.other = r
+				} else if e := env.Destroy(); e != nil {
+					o.other = "destroy: " + e.Error()
+				} else {
+					o.other = "ok"
+				}
+				env.Destroy()
+				os.RemoveAll(root)
+			} else {
+				select {
+				case r := <-otherDone:
+					if r == fmt.Sprintf("%v exit %d ", runner.StatusNonzeroExitStatus, 33) {
+						r = "ok"
+					}
+					o.other = r
+				case <-time.After(25 * time.Second):
+					o.other = "namespace run never returned"
+				}
+			}
+			ch <- o
+		}()
+		select {
+		case o := <-ch:
+			if o.err != nil {
+				return o.err
+			}
+			if o.res != want {
+				return vh.Violf("C17:blocked-by-another-sandbox", "a ptrace run on a thread that had forked for another sandbox (%s) returned %q, want %q; %s", c.Other, o.res, want, desc)
+			}
+			if o.other != "ok" {
+				return vh.Violf("C17:differs-from-alone", "the other sandbox forked from the same thread (%s) afterwards: %q; %s", c.Other, o.other, desc)
+			}
+		case <-time.After(60 * time.Second):
+			return vh.Violf("C17:blocked-by-another-sandbox", "a ptrace run on a thread that had forked for another sandbox (%s) did not come back within 60 s; %s", c.Other, desc)
+		}
 	}
 	rec.Case(c, c.Scenario == "pending-call" || c.Fail != "none", "scenario="+c.Scenario, "pending="+c.Pending, "unrelated="+c.Other, "failed-launch="+c.Fail)
 	if rec.WantSample() {
@@ -262,19 +395,26 @@ func c17Independence(c c17ICase, rec *vh.Recorder) error {
 	return nil
 }
 
+var _ = strings.HasPrefix
+
 func TestC17Independence(t *testing.T) {
 	rec := vh.NewRecorder(t, "C17", "exploration",
-		"independence part: (1) a program blocked in environment E (released by the harness) + a second call on E queued behind it in {Open, Ping, Symlink, Delete, Reset} for 1..30 ms, then an unrelated sandbox in {ptrace run, namespace run, Execve on another environment, Build of a new environment + Execve} must return the same result as alone while E is still blocked (10 s bound); (2) a goroutine makes a ptrace run whose launch fails in {missing work dir, refusing SyncFunc, closed descriptor in Files, none}, builds an environment, hands it over and ends; after 0..50 ms the environment must answer Ping and run a program; non-trivial = scenario 1, or scenario 2 with a failed launch")
+		"independence part: (1) a program blocked in environment E (released by the harness) + a second call on E queued behind it in {Open, Ping, Symlink, Delete, Reset} for 1..30 ms, then an unrelated sandbox in {ptrace run, namespace run, Execve on another environment, Build of a new environment + Execve} must return the same result as alone while E is still blocked (10 s bound); (3) a launch fails for lack of descriptors (RLIMIT_NOFILE 0 for the moment of the Start), then four concurrent launches must work; (4) one OS thread forks a container init or a namespace-runner child and then hosts a ptrace run: both behave as alone; (2) a goroutine makes a ptrace run whose launch fails in {missing work dir, refusing SyncFunc, closed descriptor in Files, none}, builds an environment, hands it over and ends; after 0..50 ms the environment must answer Ping and run a program; non-trivial = scenario 1, or scenario 2 with a failed launch")
 	vh.Check(t, rec, func(rt *rapid.T) c17ICase {
-		c := c17ICase{Scenario: rapid.SampledFrom([]string{"pending-call", "failed-start-then-build"}).Draw(rt, "scenario"), Code: rapid.IntRange(2, 120).Draw(rt, "code")}
+		c := c17ICase{Scenario: rapid.SampledFrom([]string{"pending-call", "pending-call", "failed-start-then-build", "failed-start-then-build", "emfile-start", "thread-with-history", "thread-with-history"}).Draw(rt, "scenario"), Code: rapid.IntRange(2, 100).Draw(rt, "code")}
 		c.Pending = rapid.SampledFrom([]string{"open", "open", "ping", "symlink", "delete", "reset"}).Draw(rt, "pending")
 		c.Other = rapid.SampledFrom([]string{"ptrace", "ptrace", "unshare", "container", "build"}).Draw(rt, "other")
 		c.DelayMs = rapid.SampledFrom([]int{1, 5, 30}).Draw(rt, "delay")
 		c.Fail = rapid.SampledFrom([]string{"bad-workdir", "syncfunc-error", "closed-fd", "none"}).Draw(rt, "fail")
 		c.Idle = rapid.SampledFrom([]int{0, 5, 50}).Draw(rt, "idle")
-		if c.Scenario == "pending-call" {
+		switch c.Scenario {
+		case "pending-call":
 			c.Fail, c.Idle = "", 0
-		} else {
+		case "thread-with-history":
+			c.Pending, c.DelayMs, c.Fail, c.Idle = "", 0, "", 0
+		case "emfile-start":
+			c.Pending, c.Other, c.DelayMs, c.Idle = "", "", 0, 0
+		default:
 			c.Pending, c.Other, c.DelayMs = "", "", 0
 		}
 		return c
